@@ -326,7 +326,16 @@ def observe(st, oids, bounds):
     return obs
 
 
-def do_pack(st, T, gc, tz=None):
+class _DBShim(object):
+    """just what ZODB.DB.DB.pack touches (constructing a real DB would commit a root object into
+    storages whose root is absent / un-created)"""
+
+    def __init__(self, st):
+        self.storage = st
+        self.references = Z['referencesf']
+
+
+def do_pack(st, T, gc, tz=None, via=None):
     """pack to model time T; `tz`: POSIX TZ string in force during the call (the pack time is a UTC
     time stamp: the local zone must not matter)"""
     old = os.environ.get('TZ')
@@ -334,7 +343,7 @@ def do_pack(st, T, gc, tz=None):
         os.environ['TZ'] = tz
         time.tzset()
     try:
-        return _do_pack(st, T, gc)
+        return _do_pack(st, T, gc, via)
     finally:
         if tz:
             if old is None:
@@ -344,8 +353,26 @@ def do_pack(st, T, gc, tz=None):
             time.tzset()
 
 
-def _do_pack(st, T, gc):
+def _do_pack(st, T, gc, via=None):
+    """via = None: storage.pack(t, referencesf, gc).  via = ['db', days]: the public entry point
+    DB.pack(t=T + days, days=days); ['dbnow', days]: DB.pack(days=days) with the clock at T + days —
+    both must pack to T (gc is then the storage's default, True)."""
     try:
+        if via:
+            dbmod = sys.modules['ZODB.DB']
+            days = via[1]
+            shim = _DBShim(st)
+            if via[0] == 'db':
+                dbmod.DB.pack(shim, t=real_time(T) + days * 86400, days=days)
+            else:
+                import types
+                real = dbmod.time
+                dbmod.time = types.SimpleNamespace(time=lambda: real_time(T) + days * 86400)
+                try:
+                    dbmod.DB.pack(shim, days=days)
+                finally:
+                    dbmod.time = real
+            return 'done'
         st.pack(real_time(T), Z['referencesf'], gc=bool(gc))
         return 'done'
     except BaseException as e:       # AssertionError included
@@ -632,7 +659,10 @@ def run_case(case, tmp, want_model=True):
                 res['expect'].append(('nr', T, gc))
             if kind in FSLIKE and os.path.exists(path + '.old'):
                 os.remove(path + '.old')
-            outcome = do_pack(st, T, gc, case.get('tz'))
+            via = case.get('via') if (gc and kind != 'demofs') else None
+            if via:
+                counts['via:%s' % via[0]] = counts.get('via:%s' % via[0], 0) + 1
+            outcome = do_pack(st, T, gc, case.get('tz'), via)
             if case.get('tz'):
                 counts['tz:' + case['tz']] = counts.get('tz:' + case['tz'], 0) + 1
             if kind in FSLIKE and outcome == 'done':
@@ -701,6 +731,95 @@ def run_case(case, tmp, want_model=True):
     return res
 
 
+def run_cc(case, tmp, want_model=False):
+    """A transaction committed by a second thread while MappingStorage.pack (directly or as the
+    changes of a DemoStorage) is inside its gc sweep.  The thread is started from the `referencesf`
+    callback of the sweep and given 0.25 s; a storage that serialises pack and commit lets it wait.
+    Whatever the order, that transaction lies after the pack time: it must be listed completely and
+    its objects must load; everything else is judged as for a pack without it."""
+    global Z
+    import threading
+    if Z is None:
+        Z = _zodb()
+    ops, kind, (T, gc) = case['ops'], case['kind'], case['seq'][0]
+    res = dict(bad=[], counts={}, lines=[], expect=[], nontrivial=False, sample=None, log=[])
+    truth = Truth()
+    st = open_storage(kind, None)
+    try:
+        done, serial = apply_ops(st, kind, ops, truth)
+        res['log'] = done
+        ms = [op['m'] for op in ops]
+        bounds = sorted(set(ms + [max(ms) + 1]))
+        oids = sorted({ROOT} | {o for op in ops if op['op'] == 'store' for o, _, _ in op['recs']}
+                      | {x for op in ops if op['op'] == 'store' for _, r, _ in op['recs'] for x in r})
+        before = observe(st, oids, bounds)
+        new_m = max(ms) + 2
+        new_op = dict(m=new_m, op='store', recs=[[17, [18], []], [18, [], []]])
+        finished = threading.Event()
+        errors = []
+
+        def committer():
+            try:
+                r, _ = apply_ops(st, kind, [new_op], truth, {})
+                if r[0][1] != 'ok':
+                    errors.append(r[0][1])
+            except Exception as e:
+                errors.append(repr(e))
+            finally:
+                finished.set()
+        thread = threading.Thread(target=committer)
+        state = dict(started=False, during=False)
+
+        def hooked(p, oids=None):
+            if not state['started']:
+                state['started'] = True
+                thread.start()
+                state['during'] = finished.wait(0.25)
+            return Z['referencesf'](p, oids)
+        try:
+            st.pack(real_time(T), hooked, gc=True)
+            outcome = 'done'
+        except Exception as e:
+            outcome = {'KeyError': 'err:KeyError', 'ValueError': 'err:ValueError'}.get(
+                type(e).__name__, 'err:Other(%s)' % type(e).__name__)
+        if not state['started']:
+            thread.start()
+        thread.join(30)
+        res['counts']['cc:%s:commit-%s-pack' % (kind, 'during' if state['during'] else 'after')] = 1
+        res['counts']['pack:%s:%s' % (kind, outcome)] = 1
+        if errors or thread.is_alive():
+            res['bad'].append(('C07:commit-during-pack-failed',
+                               'the commit arriving during pack(T=%d) on %s failed: %r' % (T, kind, errors)))
+        after = observe(st, oids, bounds)
+        mine = [t for t in after['listing'] if t['m'] == new_m]
+        want = sorted((o, mkpickle(new_m * 100 + o, r, w)) for o, r, w in new_op['recs'])
+        got = sorted((o, d) for t in mine for o, d, _ in t['recs'])
+        lost = []
+        for o, d in want:
+            try:
+                r = st.loadBefore(Z['p64'](o), real_tid(new_m + 1))
+                if r is None or r[0] != d:
+                    lost.append(o)
+            except Exception:
+                lost.append(o)
+        if not errors and (got != want or lost):
+            res['bad'].append(('C07:commit-during-pack-lost',
+                               'transaction %d committed by another thread %s pack(T=%d, gc=1) on %s: listed '
+                               'records of oids %r (wrote %r), not loadable: %r'
+                               % (new_m, 'during' if state['during'] else 'after', T, kind,
+                                  [o for o, _ in got], [o for o, _ in want], lost)))
+        after['listing'] = [t for t in after['listing'] if t['m'] != new_m]
+        res['bad'] += judge_pack(before, after, T, 1, kind, outcome, truth, bounds, res['counts'])
+        if res['bad']:
+            res['sample'] = dict(kind=kind, seq=case['seq'], cc=True, ops=ops[:6])
+    finally:
+        try:
+            st.close()
+        except Exception:
+            pass
+    return res
+
+
 def undo_series(st, kind, path, first, T, gc, oids, truth, counts, serial):
     """undo the (up to 4) newest transactions after T, newest first, on the packed storage and on a
     fresh copy of the unpacked file; outcomes and resulting current states must agree"""
@@ -755,6 +874,8 @@ def undo_series(st, kind, path, first, T, gc, oids, truth, counts, serial):
 def _worker(args):
     case, tmp = args
     try:
+        if case.get('cc'):
+            return run_cc(case, tmp)
         return run_case(case, tmp)
     except InfraError as e:
         return dict(infra=str(e))
@@ -804,7 +925,7 @@ def shrink(case, sig, tmp):
     def fails(ops):
         c = dict(case, ops=ops)
         try:
-            r = run_case(c, tmp, want_model=False)
+            r = (run_cc if c.get('cc') else run_case)(c, tmp, want_model=False)
         except Exception:
             return False
         return any(s == sig for s, _ in r['bad'])
@@ -846,7 +967,17 @@ def main(argv=None):
                         continue
                     x = ck.rng.random()
                     tz = 'JST-9' if x < 0.2 else ('XXX-5:30' if x < 0.3 else ('PST8' if x < 0.4 else None))
-                    cases.append(dict(ops=ops, kind=kind, seq=seq, drop_index=ck.rng.random() < 0.5, tz=tz))
+                    y = ck.rng.random()
+                    via = (['db', ck.rng.choice([1, 0.5, 30])] if y < 0.15 else
+                           (['dbnow', ck.rng.choice([1, 2])] if y < 0.2 else None))
+                    cases.append(dict(ops=ops, kind=kind, seq=seq, drop_index=ck.rng.random() < 0.5, tz=tz,
+                                      via=via))
+            if i % 10 == 3 and ops:
+                # a commit arriving from another thread while a MappingStorage is being packed
+                ms = [op['m'] for op in ops]
+                for kind in ('map', 'map', 'demo'):
+                    T = ck.rng.choice(sorted(set(ms + [m + 1 for m in ms])))
+                    cases.append(dict(ops=ops, kind=kind, seq=[[T, 1]], cc=True))
     # ---- real code + oracle
     nproc = 1 if len(cases) < 50 else min(16, os.cpu_count() or 1)
     if nproc > 1:
@@ -888,7 +1019,7 @@ def main(argv=None):
                     continue
                 reported.add(sig)
                 small = case if known else shrink(case, sig, ck.tmp)
-                rr = run_case(small, ck.tmp, want_model=False)
+                rr = (run_cc if small.get('cc') else run_case)(small, ck.tmp, want_model=False)
                 what = [w for s, w in rr['bad'] if s == sig] or [w for s, w in r['bad'] if s == sig]
                 ck.violation(sig, what[0], dict(case=small, signature=sig, findings=[w for _, w in rr['bad']][:6]))
         elif mism:
